@@ -1,6 +1,7 @@
 package main
 
 import (
+	"os"
 	"fmt"
 	"go/token"
 	"go/types"
@@ -86,6 +87,7 @@ func init() {
 			ruleA1(r)
 			ruleC09A2(r)
 			ruleC09A3(r)
+			ruleC09A4(r, le)
 		},
 	})
 }
@@ -547,7 +549,281 @@ func ruleC09A3(r *Run) {
 			}
 		})
 	}
+	// the same through a helper that is handed the guarded container and its lock (lookup(&x.mu, x.table, key)): what
+	// the helper returns from the container is, at the call site, an element of the guarded field one level down; if it
+	// is itself a map or slice the owner writes into, it has left the critical section the helper opened and closed
+	for _, fn := range p.Funcs {
+		if fn.Blocks == nil || !p.Analysed(fn) {
+			continue
+		}
+		name := fnName(fn)
+		k := 0
+		allInstrs(fn, func(ins ssa.Instruction) {
+			call, ok := ins.(*ssa.Call)
+			if !ok {
+				return
+			}
+			h := call.Call.StaticCallee()
+			if h == nil || !p.Analysed(h) || h.Blocks == nil {
+				return
+			}
+			locks := false
+			allInstrs(h, func(x ssa.Instruction) {
+				if cc := instrCall(x); cc != nil {
+					if op, _ := classifyLockCall(cc); op == opLock || op == opRLock {
+						locks = true
+					}
+				}
+			})
+			if !locks {
+				return
+			}
+			for i, arg := range call.Call.Args {
+				fk, lvl := origin(arg, 0)
+				if fk == "" || i >= len(h.Params) {
+					continue
+				}
+				prm := ssa.Value(h.Params[i])
+				// level of each result relative to the parameter
+				var rel func(v ssa.Value, d int) (bool, int)
+				rel = func(v ssa.Value, d int) (bool, int) {
+					if d > 6 {
+						return false, 0
+					}
+					v = canonVal(v)
+					if v == prm {
+						return true, 0
+					}
+					switch x := v.(type) {
+					case *ssa.Extract:
+						return rel(x.Tuple, d+1)
+					case *ssa.Lookup:
+						if ok2, l := rel(x.X, d+1); ok2 {
+							return true, l + 1
+						}
+					case *ssa.Phi:
+						for _, e := range x.Edges {
+							if ok2, l := rel(e, d+1); ok2 {
+								return true, l
+							}
+						}
+					case *ssa.Slice:
+						return rel(x.X, d+1)
+					}
+					return false, 0
+				}
+				allInstrs(h, func(x ssa.Instruction) {
+					ret, isRet := x.(*ssa.Return)
+					if !isRet {
+						return
+					}
+					for j, rv := range retResults(ret) {
+						switch rv.Type().Underlying().(type) {
+						case *types.Map, *types.Slice:
+						default:
+							continue
+						}
+						ok2, l := rel(rv, 0)
+						if !ok2 {
+							continue
+						}
+						k++
+						n++
+						shared := mutated[fk][lvl+l]
+						r.Check(fmt.Sprintf("%s call#%d of %s result#%d is not a guarded container", name, k, fnName(h), j), !shared, posOf(p, call), name, fmt.Sprintf("%s locks, reads %s at nesting level %d and hands the inner container back: the caller uses it after the helper released the lock while the owner goes on writing it", fnName(h), fk, lvl+l))
+					}
+				})
+			}
+		})
+	}
 	if n == 0 {
 		r.Check("container-returning critical sections", true, "", "", "no locking function returns a map or slice")
+	}
+}
+
+// ruleC09A4: publish before go. A goroutine sees what was written before the go statement that started it; a field
+// written afterwards, without a lock, by the function that (directly or through a call) started the goroutine races
+// with the goroutine's unlocked reads of that field. The rule looks, in every function, for a call or go statement A
+// that starts a goroutine reading field f without a lock, followed (dominated) by a call B that stores to f without
+// a lock. Fields are compared by declaration (object-insensitive), goroutines and callees are followed through the
+// call graph (interface calls included) to a small depth.
+func ruleC09A4(r *Run, le *LockEngine) {
+	r.Begin("A4", "publish before go: no function starts a goroutine (directly or through a call) that reads a field without a lock and afterwards performs, without a lock, a store to that field (directly or through a call) — what a goroutine needs is set before it is started", 1)
+	p := r.P
+	cg := p.CG()
+	calleesOf := func(ins ssa.Instruction) []*ssa.Function {
+		var out []*ssa.Function
+		cc := instrCall(ins)
+		if cc == nil {
+			return nil
+		}
+		if f := cc.StaticCallee(); f != nil {
+			return []*ssa.Function{f}
+		}
+		if f := closureOf(cc.Value); f != nil {
+			return []*ssa.Function{f}
+		}
+		if n := cg.Nodes[ins.Parent()]; n != nil {
+			for _, e := range n.Out {
+				if e.Site != nil && e.Site == ins.(ssa.CallInstruction) && e.Callee != nil && e.Callee.Func != nil && p.Analysed(e.Callee.Func) {
+					out = append(out, e.Callee.Func)
+				}
+			}
+		}
+		// a library is also used with implementations its own code never constructs (a poller the application picks):
+		// for an interface call every implementer declared in the module counts
+		if cc.IsInvoke() {
+			if it, isI := cc.Value.Type().Underlying().(*types.Interface); isI {
+				have := map[*ssa.Function]bool{}
+				for _, f := range out {
+					have[f] = true
+				}
+				for _, n := range p.implementers(it, false) {
+					if m := p.methodOf(n, cc.Method.Name()); m != nil && !have[m] && p.Analysed(m) {
+						out = append(out, m)
+					}
+				}
+			}
+		}
+		return out
+	}
+	skipType := func(t types.Type) bool {
+		if n := namedOf(t); n != nil && n.Obj().Pkg() != nil {
+			switch n.Obj().Pkg().Path() {
+			case "sync", "sync/atomic", "context":
+				return true
+			}
+		}
+		return false
+	}
+	type fieldset map[*types.Var]ssa.Instruction
+	// unlocked reads of non-local objects in fn and its callees
+	var reads func(fn *ssa.Function, depth int, seen map[*ssa.Function]bool, out fieldset)
+	reads = func(fn *ssa.Function, depth int, seen map[*ssa.Function]bool, out fieldset) {
+		if fn == nil || fn.Blocks == nil || seen[fn] || depth > 3 || !p.Analysed(fn) {
+			return
+		}
+		seen[fn] = true
+		withAnon(fn, func(g *ssa.Function) {
+			allInstrs(g, func(ins ssa.Instruction) {
+				if u, ok := ins.(*ssa.UnOp); ok && u.Op == token.MUL {
+					if fa, isFA := u.X.(*ssa.FieldAddr); isFA && len(le.HeldAt(ins)) == 0 && !isLocalObject(pathOf(fa.X)) {
+						if f := fieldOf(fa.X.Type(), fa.Field); f != nil && !skipType(f.Type()) {
+							if _, dup := out[f]; !dup {
+								out[f] = ins
+							}
+						}
+					}
+				}
+				if _, isGo := ins.(*ssa.Go); isGo {
+					return
+				}
+				if _, isCall := ins.(*ssa.Call); isCall {
+					for _, cal := range calleesOf(ins) {
+						reads(cal, depth+1, seen, out)
+					}
+				}
+			})
+		})
+	}
+	// goroutines started by executing ins (a go statement, or a call that reaches one)
+	var started func(ins ssa.Instruction, depth int, seen map[*ssa.Function]bool, out fieldset)
+	started = func(ins ssa.Instruction, depth int, seen map[*ssa.Function]bool, out fieldset) {
+		if depth > 2 {
+			return
+		}
+		if _, isGo := ins.(*ssa.Go); isGo {
+			for _, body := range calleesOf(ins) {
+				reads(body, 0, map[*ssa.Function]bool{}, out)
+			}
+			return
+		}
+		if _, isCall := ins.(*ssa.Call); !isCall {
+			return
+		}
+		for _, cal := range calleesOf(ins) {
+			if cal == nil || cal.Blocks == nil || seen[cal] || !p.Analysed(cal) {
+				continue
+			}
+			seen[cal] = true
+			allInstrs(cal, func(x ssa.Instruction) {
+				switch x.(type) {
+				case *ssa.Go, *ssa.Call:
+					started(x, depth+1, seen, out)
+				}
+			})
+		}
+	}
+	// unlocked stores to non-local objects performed by executing ins
+	var stores func(fn *ssa.Function, depth int, seen map[*ssa.Function]bool, out fieldset)
+	stores = func(fn *ssa.Function, depth int, seen map[*ssa.Function]bool, out fieldset) {
+		if fn == nil || fn.Blocks == nil || seen[fn] || depth > 2 || !p.Analysed(fn) {
+			return
+		}
+		seen[fn] = true
+		allInstrs(fn, func(ins ssa.Instruction) {
+			if st, ok := ins.(*ssa.Store); ok {
+				if fa, isFA := st.Addr.(*ssa.FieldAddr); isFA && len(le.HeldAt(ins)) == 0 && !isLocalObject(pathOf(fa.X)) {
+					if f := fieldOf(fa.X.Type(), fa.Field); f != nil && !skipType(f.Type()) {
+						out[f] = ins
+					}
+				}
+			}
+			if _, isCall := ins.(*ssa.Call); isCall {
+				for _, cal := range calleesOf(ins) {
+					stores(cal, depth+1, seen, out)
+				}
+			}
+		})
+	}
+	n := 0
+	for _, fn := range p.Funcs {
+		if fn.Blocks == nil || !p.Analysed(fn) {
+			continue
+		}
+		name := fnName(fn)
+		var starters []ssa.Instruction
+		allInstrs(fn, func(ins ssa.Instruction) {
+			switch ins.(type) {
+			case *ssa.Go, *ssa.Call:
+				starters = append(starters, ins)
+			}
+		})
+		k := 0
+		for _, a := range starters {
+			rd := fieldset{}
+			started(a, 0, map[*ssa.Function]bool{}, rd)
+			if os.Getenv("ISCP_DEBUG_A4") != "" && strings.Contains(name, os.Getenv("ISCP_DEBUG_A4")) {
+				fmt.Printf("A4 %s starter %s callees=%d reads=%d\n", name, posOf(p, a), len(calleesOf(a)), len(rd))
+			}
+			if len(rd) == 0 {
+				continue
+			}
+			for _, b := range starters {
+				if a == b || !dominatesInstr(a, b) {
+					continue
+				}
+				if _, isCall := b.(*ssa.Call); !isCall {
+					continue
+				}
+				if len(le.HeldAt(b)) > 0 {
+					continue
+				}
+				wr := fieldset{}
+				for _, cal := range calleesOf(b) {
+					stores(cal, 0, map[*ssa.Function]bool{}, wr)
+				}
+				for f, at := range wr {
+					if rdAt, both := rd[f]; both {
+						k++
+						n++
+						r.Check(fmt.Sprintf("%s late store#%d to %s", name, k, f.Name()), false, posOf(p, b), name, fmt.Sprintf("the goroutine started at %s reads %s without a lock (%s); the call at %s stores to it afterwards without a lock (%s): set the field before the goroutine is started", posOf(p, a), f.Name(), posOf(p, rdAt), posOf(p, b), posOf(p, at)))
+					}
+				}
+			}
+		}
+	}
+	if n == 0 {
+		r.Check("stores after go", true, "", "", "no unlocked store to a field follows the start of a goroutine that reads it unlocked")
 	}
 }
